@@ -355,10 +355,17 @@ def tt_oracle(ops, answers, mate_bound=48000):
     return None
 
 def tt_clear_cycles(ctx, tt_size, mate_bound=48000):
-    """records, then N clears in a row (N around every power of two up to 1024: a clear that merely ages entries out by a
+    """records, then N clears in a row (N around every power of two and multiple of 64 up to 1024: a clear that merely ages entries out by a
     wrapping counter revives them after a full cycle), then probes: nothing may be found"""
     rng = random.Random(ctx.seed + 77)
-    for n in (1, 2, 3, 127, 128, 129, 255, 256, 257, 511, 512, 513, 1023, 1024, 1025):
+    # every power of two and every multiple of 64 up to 1024, with neighbours; the short periods are run several times in a
+    # row because a clear that only bumps a wrapping generation counter (and wipes for real when the counter wraps) hides
+    # the revival whenever the run of clears happens to pass the wrap: successive runs start at different phases
+    ns = [1, 2, 3]
+    for q in (4, 8, 16, 32, 64, 128, 192, 256, 320, 384, 512, 1024):
+        reps = 4 if q <= 192 else 1
+        ns += [q - 1] + [q] * reps + [q + 1]
+    for n in ns:
         keys = [rng.getrandbits(64) for _ in range(4)] + [0, tt_size - 1]
         ops = [('r', k, rng.randint(-900, 900), rng.choice([3, 8, 64]), 'E', rng.randint(0, 20)) for k in keys]
         ops += [('c',)] * n
